@@ -281,6 +281,7 @@ def check_common(rec, cfg, obj, P, inp, names, axes, node_args, base_args, draw_
 def gen_errors(rng, nbin):
     mode = str(rng.choice(["ind_cov", "ind_cov0", "matrix"]))
     err_ind = rng.uniform(5, 25, nbin)
+    if rng.random() < 0.3: err_ind = rng.integers(5, 25, nbin)        # errors written as integers (as the library's own tests do): dtype must not leak
     err_cov = float(rng.uniform(1, 8)) if mode != "ind_cov0" else 0.0
     M = pd(rng, nbin, 12.0) if mode == "matrix" else None
     return mode, err_ind, err_cov, M
@@ -402,6 +403,8 @@ def check_composite(rec, rng, inp):
     nm = int(rng.integers(2, 4))
     gamma_in_array = np.sort(rng.uniform(0.3, 1.8, ng))
     log_m2l_array = np.sort(rng.uniform(0.05, 0.9, nm)) if pop else rng.uniform(0.05, 0.9, nS)
+    if rng.random() < 0.3: gamma_in_array = gamma_in_array[::-1].copy()                  # axes tabulated in descending order are legal
+    if pop and rng.random() < 0.3: log_m2l_array = log_m2l_array[::-1].copy()
     stress = bool(rng.random() < 0.3)
     theta_E, gamma = float(rng.uniform(0.6, 2.0)), float(rng.uniform(1.8, 2.3))
     r_eff = float(rng.choice([rng.uniform(0.3, 0.9), rng.uniform(1.1, 2.5)]))
